@@ -45,11 +45,11 @@ def allRels : List Rel := [.eq, .ne, .lt, .le, .gt, .ge]
 
 def parseTag : String → Option Tag
   | "int" => some .int | "float" => some .float | "string" => some .string
-  | "long" => some .long | "noeq" => some .noeq | "trk" => some .trk
+  | "long" => some .long | "noeq" => some .noeq | "trk" => some .trk | "key" => some .key
   | _ => none
 
 def tagName : Tag → String
-  | .int => "int" | .float => "float" | .string => "string" | .long => "long" | .noeq => "noeq" | .trk => "trk"
+  | .int => "int" | .float => "float" | .string => "string" | .long => "long" | .noeq => "noeq" | .trk => "trk" | .key => "key"
 
 def avString (α : AWorld) : String :=
   String.ofList ((List.range 3).map fun i =>
@@ -109,6 +109,13 @@ def stepSt (s : St) (ws : List String) : St × String :=
       | "new" => doOp s [] (.ctorDefault i)
       | "del" => doOp s [i] (.dtor i)
       | "rst" => doOp s [i] (.reset i)
+      | "asown" =>
+        -- `o = o.value()`: operator=(U&&) applied to the wrapper's own payload (same code path as `asv`)
+        if present s.σ i then
+          match obsHas s.σ i, obsValue s.σ i with
+          | true, some (.v n) => doOp s [i] (.assignValue i n)
+          | _, _ => (s, "noval" ++ tail s)
+        else (s, "absent" ++ tail s)
       | "has" => obs s [i] (bit (obsHas s.σ i))
       | "bool" => obs s [i] (bit (obsHas s.σ i))
       | "get" | "arrow" => obs s [i] (if obsHas s.σ i then showVal (obsValue s.σ i) else "-")
